@@ -226,8 +226,13 @@ pub fn run(subj: Box<dyn Subject>) -> EndKind {
                         w.in_fire = NONE;
                         w.violate(1, || format!("invoking waker record {} panicked: {}", wid, m));
                     });
-                    end_kind = EndKind::Panicked;
-                    break;
+                    // a group promises that it stays usable (C11 / C12: refill and reuse): keep going, so that what
+                    // the panicking waker left behind (a poisoned lock, a half-updated table) shows in the group's
+                    // own operations; every other subject ends here
+                    if !subj.as_ref().map(|s| s.reusable()).unwrap_or(false) {
+                        end_kind = EndKind::Panicked;
+                        break;
+                    }
                 }
                 with(|w| w.check_wake_all());
             }
